@@ -265,7 +265,11 @@ func ruleUseAfterWipe(p *Program, r *Report, rule string, sel func(s wipeSite) b
 				return
 			}
 			n++
-			c := "buffer " + exprTextOf(p, s.Arg) + " handed to " + s.Callee.Name()
+			argText := exprTextOf(p, s.Arg)
+			if root, path := accessPath(s.Arg); path != "" {
+				argText = exprTextOf(p, root) + "." + path
+			}
+			c := "buffer " + argText + " handed to " + s.Callee.Name()
 			seen[c]++
 			if seen[c] > 1 {
 				c += " #" + itoa(seen[c])
